@@ -2962,6 +2962,10 @@ class HTTPChannel(basic.LineReceiver, policies.TimeoutMixin):
         """
         self.transport.write(b"HTTP/1.1 400 Bad Request\r\n\r\n")
         self.loseConnection()
+        # Nothing that arrives after a bad request may be processed, even if
+        # the transport keeps delivering data while it is disconnecting.
+        self.dataReceived = self.lineReceived = lambda *args: None  # type: ignore[method-assign]
+        self.rawDataReceived = lambda *args: None  # type: ignore[method-assign]
 
 
 def _escape(s):
